@@ -419,6 +419,13 @@ macro_rules! tracked_shape {
                 self.read()
             }
         }
+        #[cfg(feature = "cfg_a")]
+        impl<'de> serde::Deserialize<'de> for $name {
+            fn deserialize<D: serde::Deserializer<'de>>(d: D) -> Result<Self, D::Error> {
+                let _ = <u32 as serde::Deserialize>::deserialize(d)?;
+                Ok(Self::fresh())
+            }
+        }
     };
 }
 
@@ -521,6 +528,13 @@ impl std::fmt::Debug for Z0 {
 impl crate::handle::Probe for Z0 {
     fn probe_id(&self) -> u32 {
         0
+    }
+}
+#[cfg(feature = "cfg_a")]
+impl<'de> serde::Deserialize<'de> for Z0 {
+    fn deserialize<D: serde::Deserializer<'de>>(d: D) -> Result<Self, D::Error> {
+        let _ = <u32 as serde::Deserialize>::deserialize(d)?;
+        Ok(Z0::fresh())
     }
 }
 
